@@ -4,6 +4,7 @@ import (
 	"context"
 	"fmt"
 	"os"
+	"runtime/debug"
 	"sync"
 	"sync/atomic"
 	"time"
@@ -64,6 +65,8 @@ type Network struct {
 	commitWait  map[string]*commitGate
 	prepCount   map[string]int
 	Panics      []string
+	// HookPanics are panics inside the check's own hooks (see inHook)
+	HookPanics []string
 	// hookMu serialises the hooks: Dirk sends commit messages from parallel goroutines, and hooks
 	// keep counters.  A hook that needs to send a message of its own uses DeliverRaw.
 	hookMu    sync.Mutex
@@ -76,6 +79,13 @@ func (n *Network) inHook(f func()) {
 	defer func() {
 		n.hookOwner.Store(0)
 		n.hookMu.Unlock()
+		// a panic in a hook is a defect of the check, never of Dirk: record it apart from instance panics
+		// (the caller sees an ordinary delivery error) so that the check ends as an infrastructure error
+		if r := recover(); r != nil {
+			n.mu.Lock()
+			n.HookPanics = append(n.HookPanics, fmt.Sprintf("%v\n%s", r, debug.Stack()))
+			n.mu.Unlock()
+		}
 	}()
 	f()
 }
